@@ -61,6 +61,7 @@ class Net:
         self.lat = LAT[lat_class]
         self.chooser = chooser
         self.stop = False
+        self.paused = set()  # keys of idle nodes whose application loop is stalled (see idle())
         self.events = []  # (now, key, what) harness-level log (public call returns ...)
         self.exc = {}
         base = COST[cost_class]
@@ -96,10 +97,15 @@ class Net:
 
         def loop(ctx):
             while not self.stop:
+                if key in self.paused:
+                    ctx.wait(2 * MS)  # this node's application is busy with something else: update() is not called
+                    continue
                 if not ctx.wait_rx(radio, None, self.latency("lat")):
                     continue
                 if self.stop:
                     break
+                if key in self.paused:
+                    continue
                 node.update()
                 if hook is not None:
                     hook(key, node, radio)
